@@ -63,5 +63,4 @@ package storage
 // Put with a non-positive lifetime stores nothing (and reports success): a one-time value stored that way could never be burned.
 //@ func (SessionStoreImpl[T]).Put
 //@   prop C05
-//@   loop 1 invariant true
 //@   ensures [stored-under-this-stores-key] did(call (*cache.Cache[T]).Set #1) ==> arg(call (*cache.Cache[T]).Set #1, 2) == any(old(s.db.getFullKey(s.prefixes, key))) && arg(call (*cache.Cache[T]).Set #1, 0) == s.underlying
